@@ -20,7 +20,7 @@ Pairs(q) == {<<q[i][1], q[i][2]>> : i \in DOMAIN q}
 
 (* logged state -> specification state *)
 FromLog(r) ==
-  [h |-> r.h, now |-> r.now, seq |-> r.seq, params |-> r.params,
+  [h |-> r.h, now |-> r.now, seq |-> r.seq, rate |-> r.rate, params |-> r.params,
    defs |-> r.defs, bind |-> r.bind, owner |-> r.owner, ownerProv |-> Pairs(r.ownerProv),
    withdraw |-> r.withdraw, vol |-> r.vol, ctx |-> r.ctx, req |-> r.req,
    active |-> Range(r.active),
@@ -89,6 +89,14 @@ Clauses ==
    C13_QueueComplete |-> C13_QueueComplete(st),
    C13_OnceOnTime |-> C13_OnceOnTime(pre, ev, st, gh),
    C13_NoHalt |-> C13_NoHalt(ev),
+   X07_RefundTiming |-> X07_RefundTiming(pre, ev, st),
+   X07_EnableDisable |-> X07_EnableDisable(pre, ev, st),
+   X07_MinDeposit |-> X07_MinDeposit(pre, ev, st),
+   X07_Eligible |-> X07_Eligible(pre, ev, st),
+   X07_WithdrawAll |-> X07_WithdrawAll(pre, ev, st),
+   X08_Update |-> X08_Update(pre, ev, st),
+   X08_Create |-> X08_Create(pre, ev, st),
+   X08_ModuleCall |-> X08_ModuleCall(pre, ev, st),
    Idx_Active |-> Idx_Active]
 
 Failing == IF ev.name = "Init" \/ ev.halt
@@ -103,7 +111,9 @@ IsF4 == /\ Failing \cap {"C07_Charge", "C07_RequestEscrow"} # {}
         /\ C07_Charge_ModF4(pre, ev, st) /\ C07_RequestEscrow_ModF4(st, gh)
 IsF21 == "C08_Schedule" \in Failing /\ C08_Schedule_ModF21(pre, ev, st, gpre)
 (* a record, so that known-finding entries can match on "why.f4" etc. *)
-WhyOf == [f4 |-> IsF4, f21 |-> IsF21, spec |-> Apply(pre, ev).why]
+IsF29 == /\ Failing \cap {"C07_OwnerTally", "C07_Withdraw"} # {}
+         /\ C07_OwnerTally_ModF29(st, gh) /\ C07_Withdraw_ModF29(pre, ev, st)
+WhyOf == [f4 |-> IsF4, f21 |-> IsF21, f29 |-> IsF29, spec |-> Apply(pre, ev).why]
 
 (* Evaluated by TLC in every state; always TRUE, reports as a side effect *)
 Monitor == Failing = {} \/ PrintT(<<"CLAUSE-FAIL", l - 1, Failing, WhyOf>>)
